@@ -94,38 +94,38 @@ package resource
 
 // Query option constructors only build closures.
 //@ func LabelEqual
-//@   props C14
+//@   props C14 C11
 //@   pure
 //@   ensures result != nil
 //@ func LabelExists
-//@   props C14
+//@   props C14 C11
 //@   pure
 //@   ensures result != nil
 //@ func LabelIn
-//@   props C14
+//@   props C14 C11
 //@   pure
 //@   ensures result != nil
 //@ func LabelLT
-//@   props C14
+//@   props C14 C11
 //@   pure
 //@   ensures result != nil
 //@ func LabelLTE
-//@   props C14
+//@   props C14 C11
 //@   pure
 //@   ensures result != nil
 //@ func LabelLTNumeric
-//@   props C14
+//@   props C14 C11
 //@   pure
 //@   ensures result != nil
 //@ func LabelLTENumeric
-//@   props C14
+//@   props C14 C11
 //@   pure
 //@   ensures result != nil
 //@ func NotMatches
-//@   props C14
+//@   props C14 C11
 //@   pure
 //@ func IDRegexpMatch
-//@   props C14
+//@   props C14 C11
 //@   pure
 //@   ensures result != nil
 
@@ -139,10 +139,10 @@ package resource
 // Selector evaluation is used through these frame contracts by the store; its functional
 // specification is C14's.
 //@ func (IDQuery).Matches
-//@   props C14
+//@   trusted
 //@   pure
 //@ func (LabelQueries).Matches
-//@   props C14
+//@   trusted
 //@   pure
 
 // Identity of what a pointer / kind / reference value denotes.
